@@ -338,13 +338,13 @@ def strat_interleaved(draw, tier):
 PARTS = [
     Part("all_tiles", exec_bulk, enumerate=enum_bulk, shards={"quick": 12, "thorough": 16}, budget_s={"quick": 80, "thorough": 1500},
          describe="every tile of every level to depth 6/8, both systems, full enumeration route; structure and area checks"),
-    Part("filtered_route", exec_filtered, strategy=strat_filtered, examples={"quick": 300, "thorough": 20000}, shards={"quick": 8, "thorough": 16},
+    Part("filtered_route", exec_filtered, strategy=strat_filtered, examples={"quick": 600, "thorough": 20000}, shards={"quick": 8, "thorough": 16},
          describe="generate_tiles_filtered under generated accepted-set filters; tiles yielded and tiles handed to the filter"),
-    Part("single_tile_route", exec_single, strategy=strat_single, examples={"quick": 2000, "thorough": 200000}, shards={"quick": 8, "thorough": 16},
+    Part("single_tile_route", exec_single, strategy=strat_single, examples={"quick": 4000, "thorough": 200000}, shards={"quick": 8, "thorough": 16},
          describe="create_single_tile at generated positions to depth 24 (sequences of 1-4 related positions per case)"),
-    Part("point_lookup_route", exec_lookup, strategy=strat_lookup, examples={"quick": 1500, "thorough": 100000}, shards={"quick": 8, "thorough": 16},
+    Part("point_lookup_route", exec_lookup, strategy=strat_lookup, examples={"quick": 3000, "thorough": 100000}, shards={"quick": 8, "thorough": 16},
          describe="toast_tile_for_point at generated points and depths; the tile is judged for the position it reports"),
-    Part("interleaved_systems", exec_interleaved, strategy=strat_interleaved, examples={"quick": 80, "thorough": 3000}, shards={"quick": 4, "thorough": 16},
+    Part("interleaved_systems", exec_interleaved, strategy=strat_interleaved, examples={"quick": 240, "thorough": 3000}, shards={"quick": 4, "thorough": 16},
          describe="both coordinate systems used alternately in one process"),
 ]
 PARTS[0].exhaustive_tiers = {"quick", "thorough"}
